@@ -1,3 +1,30 @@
-From CRS Require Import Lib.Bytes Model.Broker.
-Theorem c06_placeholder : cin init = None.
-Proof. reflexivity. Qed.
+(** C06 — both halves of a bidirectional /io shell come from the same request. *)
+From CRS Require Import Lib.Bytes Model.Broker Proofs.BrokerProofs Props.C01.
+Open Scope N_scope.
+
+(** In every reachable state, if the input slot is held by a half of /io
+    request [r], the output slot (if occupied) is held by a half of the SAME
+    request: halves of different clients are never combined, and an /io half is
+    never paired with a unidirectional stream — for every number of requests
+    and every admission order (the theorem quantifies over all operation lists). *)
+Theorem c06_same_request : forall ops a da b db r,
+  cin (fst (run ops)) = Some (a, da) -> cout (fst (run ops)) = Some (b, db) ->
+  sd_key da = KBi r -> sd_key db = KBi r.
+Proof. exact attached_same_request. Qed.
+
+Theorem c06_same_request_out : forall ops a da b db r,
+  cin (fst (run ops)) = Some (a, da) -> cout (fst (run ops)) = Some (b, db) ->
+  sd_key db = KBi r -> sd_key da = KBi r.
+Proof.
+  intros ops a da b db r Ea Eb Ek.
+  destruct (attached_same_key ops a da b db Ea Eb) as (_ & _ & E & _). congruence.
+Qed.
+
+(** Non-vacuity: the order A.in, B.out, A.out, B.in — the cross-pairing order
+    of the repaired defect — pairs A with A and refuses both halves of B. *)
+Example c06_example :
+  let ops := [OIoReq 1 2 (mkd DIn (KBi 1) 1) (mkd DOut (KBi 1) 1); OIoReq 3 4 (mkd DIn (KBi 3) 3) (mkd DOut (KBi 3) 3);
+              OGo 1; OGo 4; OGo 2; OGo 3] in
+  cin (fst (run ops)) = Some (1, mkd DIn (KBi 1) 1) /\ cout (fst (run ops)) = Some (2, mkd DOut (KBi 1) 1) /\
+  map o_log (snd (run ops)) = [[]; []; [Log LNew 1]; [Log LBadKey 4]; [Log LNew 2]; [Log LDup 3]].
+Proof. vm_compute. repeat split; reflexivity. Qed.
